@@ -105,25 +105,61 @@ def run(chk):
                 chk.ok("R16.1", key=(ka, kb))
         else:
             chk.ok("R16.1", key=(ka, kb))
+    # the tag sets used above were read when each platform was created; they must still be what the platform objects answer now
+    for pk, p in plats.items():
+        if p is not None:
+            now = set(it.getattr(p, "compatible_tags"))
+            if now != tagsets[pk]:
+                chk.fail("R16.1", "dep_logic.tags.platform:Platform.compatible_tags:retroactive-change",
+                         f"the tag set of {pk} changed after other platforms were evaluated (+{sorted(now - tagsets[pk])[:3]}, -{sorted(tagsets[pk] - now)[:3]}): "
+                         f"compare()'s LOWER_OR_EQUAL/HIGHER answers no longer match the tag sets the platform accepts")
+                break
     chk.sample({"a": str(specs[5][0]), "b": str(specs[9][0]), "compare": table.get((specs[5][0], specs[9][0]))})
-    # R16.2 residual form
-    dom.symbolic()
+    # R16.2 residual form (symbolic requires_python)
+    from ..absint import AnalysisError
+    sdom = TagsDomain(str(chk.src))
+    sdom.symbolic()
     m = 0
-    scores = {}
-    for impl in IMPLS:
-        for pt in python_tags():
-            for abi in abi_tags(pt):
-                m += 1
-                got = dom.residual(impl, pt, abi)
-                key = f"dep_logic.tags.tags:EnvSpec._evaluate_python:{pt[:2]}"
-                if got is None or got[0] == "cond":
-                    chk.ok("R16.2", key=(impl, pt, abi), nontrivial=got is not None)
-                elif got[0] == "always":
-                    chk.fail("R16.2", key + ":ignores-requires_python", f"({impl}, {pt}, {abi}) is accepted regardless of requires_python")
-                else:
-                    chk.fail("R16.2", key + ":non-monotone-use", f"({impl}, {pt}, {abi}): requires_python is used other than as a negative emptiness guard: {got[1]}")
+    try:
+        for impl in IMPLS:
+            for pt in python_tags():
+                for abi in abi_tags(pt):
+                    m += 1
+                    got = sdom.residual(impl, pt, abi)
+                    key = f"dep_logic.tags.tags:EnvSpec._evaluate_python:{pt[:2]}"
+                    if got is None or got[0] == "cond":
+                        chk.ok("R16.2", key=(impl, pt, abi), nontrivial=got is not None)
+                    elif got[0] == "always":
+                        chk.fail("R16.2", key + ":ignores-requires_python", f"({impl}, {pt}, {abi}) is accepted regardless of requires_python")
+                    else:
+                        chk.fail("R16.2", key + ":non-monotone-use", f"({impl}, {pt}, {abi}): requires_python is used other than as a negative emptiness guard: {got[1]}")
+    except AnalysisError as e:
+        if "symbolic" not in str(e) and "parametric" not in str(e) and "requires_python" not in str(e):
+            raise
+        chk.notes.append(f"R16.2: _evaluate_python inspects requires_python ({e}); monotonicity then rests on the concrete grid (R16.4)")
     chk.instance("R16.2", m)
-    dom.concrete()
+    # R16.4: monotonicity on a grid of concrete requires_python values: A admits a subset of B's interpreters => every tag triple
+    # accepted under A is accepted under B
+    from ..tagsdomain import RP_GRID, concrete_work, rp_fine_set
+    from ..specalg import parallel
+    chk.rule("R16.4", "widening requires_python never loses a (python tag, abi tag) — concrete requires_python grid")
+    grid = RP_GRID if chk.tier == "thorough" else RP_GRID[:18]
+    res = {r["rp"]: r["accepted"] for r in parallel(concrete_work, [(str(chk.src), t) for t in grid], chk.jobs)}
+    sets = {t: rp_fine_set(t) for t in grid}
+    pairs = 0
+    for a in grid:
+        for b in grid:
+            if a != b and sets[a] <= sets[b]:
+                pairs += 1
+                lost = res[a] - res[b]
+                if lost:
+                    ex = sorted(lost, key=repr)[0]
+                    chk.fail("R16.4", "dep_logic.tags.tags:EnvSpec._evaluate_python:widening-loses-wheel",
+                             f"requires_python {a!r} admits a subset of {b!r}, yet {len(lost)} tag triple(s) accepted under the narrower spec are "
+                             f"rejected under the wider one, e.g. implementation={ex[0]}, python tag {ex[1]}, abi tag {ex[2]}")
+                else:
+                    chk.ok("R16.4", key=(a, b))
+    chk.instance("R16.4", pairs)
     # R16.3 nesting along releases
     fam = []
     for arch in ("x86_64", "x86", "aarch64", "armv7l", "ppc64le", "ppc64", "s390x", "riscv64"):
@@ -132,8 +168,16 @@ def run(chk):
     fam.append(("macos/x86_64", [plat(mk("Macos", 10, k), "x86_64") for k in range(4, 17)] + [plat(mk("Macos", M, 0), "x86_64") for M in range(11, 31)]))
     fam.append(("macos/arm64", [plat(mk("Macos", M, 0), "aarch64") for M in range(11, 31)]))
     k3 = 0
+    # evaluation order matters for hand-rolled memo tables: oldest first, then newest, then the rest (and everything is re-read at the end)
+    kept = []
     for label, seq in fam:
-        sets = [set(it.getattr(p, "compatible_tags")) for p in seq]
+        order = [0, len(seq) - 1] + list(range(1, len(seq) - 1))
+        lists = {}
+        for i in order:
+            lst = it.getattr(seq[i], "compatible_tags")
+            lists[i] = set(lst)
+            kept.append((f"{label}#{i}", seq[i], list(lst)))
+        sets = [lists[i] for i in range(len(seq))]
         for i in range(len(sets) - 1):
             k3 += 1
             if not sets[i] <= sets[i + 1]:
@@ -141,6 +185,13 @@ def run(chk):
                          f"{label}: release #{i} accepts tags the next release does not: {sorted(sets[i] - sets[i + 1])[:3]}")
             else:
                 chk.ok("R16.3", key=(label, i))
+    for lab, pobj, snap in kept:
+        now = list(it.getattr(pobj, "compatible_tags"))
+        if now != snap:
+            chk.fail("R16.3", "dep_logic.tags.platform:Platform.compatible_tags:retroactive-change",
+                     f"the tag list of {lab} changed after other platforms were evaluated ({len(snap)} -> {len(now)} tags): an older release now accepts "
+                     f"{sorted(set(now) - set(snap))[:3]}, which compare() does not account for")
+            break
     chk.instance("R16.3", k3)
     chk.exhaustive = True
     chk.analysed = {"specs": len(specs), "compare_pairs": n, "residuals": m, "release_steps": k3}
